@@ -99,3 +99,108 @@ pub fn witness(harness: &str, vals: &[u8]) -> Outcome {
         ),
     }
 }
+
+// ---- duplicates / order of appearance (Kani harnesses c11_dup_<kinds>) ----
+use crate::shared::c11::*;
+use crate::shared::src_trait::Src;
+
+/// Kani-style scenario (kinds from the harness name, names drawn from {A, B})
+pub fn dup<S: Src>(harness: &str, s: &mut S) -> Outcome {
+    let (n, kinds) = kinds_of(harness.trim_start_matches("c11_dup_"));
+    let sc = draw(s);
+    let names: Vec<char> = (0..n).map(|i| letter(sc.name_b[i]) as char).collect();
+    judge(&kinds[..n], &names)
+}
+
+/// MIR-executor witness: vals = [n, kind0, name0, kind1, name1, ...] (kind 0 method, 1 type, 2 error)
+pub fn dup_vals(vals: &[u8]) -> Outcome {
+    let n = if vals.is_empty() { 0 } else { vals[0] as usize };
+    let mut kinds = Vec::new();
+    let mut names = Vec::new();
+    for i in 0..n {
+        kinds.push(*vals.get(1 + 2 * i).unwrap_or(&0));
+        names.push((b'A' + *vals.get(2 + 2 * i).unwrap_or(&0) % 26) as char);
+    }
+    judge(&kinds, &names)
+}
+
+fn judge(kinds: &[u8], names: &[char]) -> Outcome {
+    let n = kinds.len();
+    let kinds = kinds.to_vec();
+    let names = names.to_vec();
+    let mut text = String::from("interface a.b\n");
+    for i in 0..n {
+        let nm = names[i];
+        match kinds[i] {
+            K_METHOD => text.push_str(&format!("method {}() -> ()\n", nm)),
+            K_TYPE => text.push_str(&format!("type {} ()\n", nm)),
+            _ => text.push_str(&format!("error {} ()\n", nm)),
+        }
+    }
+    let mut dupl = false;
+    for i in 0..n {
+        for j in (i + 1)..n {
+            if names[i] == names[j] {
+                dupl = true;
+            }
+        }
+    }
+    let t2 = text.clone();
+    let res = std::panic::catch_unwind(move || -> Option<String> {
+        match varlink_parser::IDL::try_from(t2.as_str()) {
+            Err(varlink_parser::Error::Idl(msg)) => {
+                if !dupl {
+                    return Some(format!("a definition without duplicates is rejected: {:?}", msg));
+                }
+                // every duplicated name is named in the error
+                for i in 0..n {
+                    for j in (i + 1)..n {
+                        if names[i] == names[j] && !msg.contains(&format!("`{}`", names[i])) {
+                            return Some(format!("duplicated name {} is not named in {:?}", names[i], msg));
+                        }
+                    }
+                }
+                None
+            }
+            Err(e) => Some(format!("unexpected error {:?}", e)),
+            Ok(idl) => {
+                if dupl {
+                    return Some("accepted although a member name is defined twice".to_string());
+                }
+                let (mut m, mut t, mut e) = (Vec::new(), Vec::new(), Vec::new());
+                for i in 0..n {
+                    let nm = names[i].to_string();
+                    match kinds[i] {
+                        K_METHOD => m.push(nm),
+                        K_TYPE => t.push(nm),
+                        _ => e.push(nm),
+                    }
+                }
+                let got = |v: &Vec<&str>| v.iter().map(|x| x.to_string()).collect::<Vec<_>>();
+                if got(&idl.method_keys) != m || got(&idl.typedef_keys) != t || got(&idl.error_keys) != e {
+                    return Some(format!(
+                        "member lists {:?} {:?} {:?} do not mirror the source {:?} {:?} {:?}",
+                        idl.method_keys, idl.typedef_keys, idl.error_keys, m, t, e
+                    ));
+                }
+                if idl.methods.len() != m.len() || idl.typedefs.len() != t.len() || idl.errors.len() != e.len() {
+                    return Some("a member is missing from its map".to_string());
+                }
+                if idl.name != "a.b" {
+                    return Some(format!("interface name {:?}", idl.name));
+                }
+                None
+            }
+        }
+    });
+    let bad = match res {
+        Err(_) => Some("IDL::try_from panicked".to_string()),
+        Ok(b) => b,
+    };
+    Outcome {
+        reproduced: bad.is_some(),
+        role: if dupl { "duplicate-name".into() } else { "distinct-names".into() },
+        scenario: format!("IDL::try_from({:?})", text),
+        detail: bad.unwrap_or_default(),
+    }
+}
